@@ -48,7 +48,7 @@ package parser
 // ls() looks the state up in a lock-free map keyed by the lexer address: trusted to be a function of l.
 //@ func ls
 //@   trusted
-//@   pure
+//@   deterministic
 
 // ANTLR's token loop runs the lexer's *_Action callbacks (verified below) on this lexer's state and touches
 // nothing else of it: level and prevToken are written only by getNextToken.
